@@ -61,7 +61,8 @@ pub fn run(scale: usize) -> Value {
     }
     // 4. constant pool and instruction reader: programs with many constants of every kind
     let mut src = String::new();
-    for i in 0..(40 * scale) {
+    // two locals per round: stay well below the 255 registers of a frame
+    for i in 0..(40 * scale).min(100) {
         src.push_str(&format!("c{i} = 'str{i}é' + '{i}'\nn{i} = {i}.5 + {}\n", i * 1000));
     }
     src.push_str("f = |a, b = 2, rest...| (a, b, rest)\nr = f 1\ng = ||\n  yield 'y1'\n  yield 'y2'\n(c0, n1, r, g().to_tuple(), 'x{c1:>8}')");
